@@ -80,6 +80,7 @@ def run(tier):
         for k, n in r["stats"].items():
             if isinstance(n, (int, float)):
                 stats[k] = stats.get(k, 0) + n if not k.endswith("max_high_water") else max(stats.get(k, 0), n)
+        stats["edge_year_high_water_handed_to_c09"] = stats.get("edge_year_high_water_handed_to_c09", 0) + len(r["stats"].get("edge_year_high_water", []))
         programs += r["stats"].get("programs", 0)
         contract_evals += sum(r["info"].get("contract_evals", {}).values())
         if r["info"].get("kind") == "mutant" and len(samples) < 4 and r["info"].get("edits"):
